@@ -44,6 +44,12 @@ func verifMapIterBegin(script []uint8) {
 	verifMap.goid = getg().goid
 }
 
+// verifGoid returns the id of the calling goroutine (the cooperative scheduler tells its threads from goroutines
+// the code under test started itself).
+//
+//go:linkname verifGoid
+func verifGoid() uint64 { return getg().goid }
+
 // verifMapIterEnd switches the hook off and reports the sizes of the maps
 // iterated (one entry per choice point) and the largest map seen.
 //
